@@ -1213,6 +1213,11 @@ class Client:
             if self.ignore_exc:
                 return {}
             raise
+        except BaseException:
+            # KeyboardInterrupt, SystemExit, gevent-style timeouts: the reply
+            # may still be in flight, so this connection must not be reused
+            self.close()
+            raise
 
     def _store_cmd(
         self,
@@ -1296,7 +1301,7 @@ class Client:
                 else:
                     raise MemcacheUnknownError(line[:32])
             return results
-        except Exception:
+        except BaseException:
             self.close()
             raise
 
@@ -1340,7 +1345,7 @@ class Client:
                 results.append(line)
             return results
 
-        except Exception:
+        except BaseException:
             self.close()
             raise
 
